@@ -158,3 +158,115 @@ Proof.
   - intros [H1 [H2 _]]. split; assumption.
   - intros [H1 H2]. repeat split; try assumption. intros t _ [].
 Qed.
+
+(* ---------------------------------------------------------------- integer lists *)
+Definition int_tok (lo hi : Z) (t : string) (z : Z) : Prop := int_value t = Some z /\ (lo <= z <= hi)%Z.
+
+Lemma scan_ints_ok : forall (lo hi : Z) (ts : list string) (vals : list Z),
+  scan_ints lo hi ts = IntOk vals <-> Forall2 (int_tok lo hi) ts vals.
+Proof.
+  intros lo hi ts. induction ts as [| t r IH]; intros vals; simpl.
+  - split.
+    + intros H. inversion H. constructor.
+    + intros H. inversion H. reflexivity.
+  - destruct (int_value t) as [z |] eqn:Ev.
+    + destruct ((lo <=? z) && (z <=? hi))%Z eqn:Er.
+      * apply andb_true_iff in Er. destruct Er as [E1 E2]. apply Z.leb_le in E1. apply Z.leb_le in E2.
+        destruct (scan_ints lo hi r) as [l | | | |] eqn:Es.
+        -- split.
+           ++ intros H. inversion H; subst. constructor; [split; [exact Ev | lia] | apply IH; reflexivity].
+           ++ intros H. inversion H as [| ? y ? l' [Hv Hr] Hrest]; subst.
+              rewrite Ev in Hv. inversion Hv; subst. apply IH in Hrest. inversion Hrest; subst. reflexivity.
+        -- split; [discriminate |]. intros H. inversion H as [| ? y ? l' _ Hrest]; subst. apply IH in Hrest. discriminate.
+        -- split; [discriminate |]. intros H. inversion H as [| ? y ? l' _ Hrest]; subst. apply IH in Hrest. discriminate.
+        -- split; [discriminate |]. intros H. inversion H as [| ? y ? l' _ Hrest]; subst. apply IH in Hrest. discriminate.
+        -- split; [discriminate |]. intros H. inversion H as [| ? y ? l' _ Hrest]; subst. apply IH in Hrest. discriminate.
+      * split; [discriminate |]. intros H. inversion H as [| ? y ? l' [Hv Hr] _]; subst.
+        rewrite Ev in Hv. inversion Hv; subst.
+        assert (((lo <=? y) && (y <=? hi))%Z = true) by (apply andb_true_iff; split; apply Z.leb_le; lia). congruence.
+    + split; [discriminate |]. intros H. inversion H as [| ? y ? l' [Hv _] _]; subst. congruence.
+Qed.
+
+Lemma arity_ok : forall (exact : bool) (len : nat) (l vals : list Z),
+  (if exact && (length l <? len) then IntFew else if len <? length l then IntMany else IntOk l) = IntOk vals <->
+  (vals = l /\ length l <= len /\ (exact = true -> length l = len)).
+Proof.
+  intros exact len l vals.
+  destruct (length l <? len) eqn:E1; [apply Nat.ltb_lt in E1 | apply Nat.ltb_ge in E1];
+  destruct (len <? length l) eqn:E2; [apply Nat.ltb_lt in E2 | apply Nat.ltb_ge in E2 | apply Nat.ltb_lt in E2 | apply Nat.ltb_ge in E2];
+  destruct exact; simpl; split; intros H;
+  try discriminate; try lia;
+  try (destruct H as [_ [H1 H2]]; try specialize (H2 eq_refl); lia);
+  try (inversion H; subst; repeat split; try lia; intros; try discriminate; lia);
+  try (destruct H as [H0 _]; subst; reflexivity).
+Qed.
+
+(* a non-empty list of values is accepted iff the tokens are integer literals whose values lie in
+   [lo, hi] - these are the values returned - and their number is within the bounds *)
+Theorem intlist_accepts_iff : forall (lo hi : Z) (len : nat) (exact : bool) (text : string) (vals : list Z),
+  (read_ints lo hi len exact text = IntOk vals /\ vals <> []) <->
+  (Forall2 (int_tok lo hi) (split_ws text) vals /\ 1 <= length vals <= len /\ (exact = true -> length vals = len)).
+Proof.
+  intros lo hi len exact text vals. unfold read_ints.
+  destruct (scan_ints lo hi (split_ws text)) as [l | | | |] eqn:Es.
+  - assert (Huniq : forall v, Forall2 (int_tok lo hi) (split_ws text) v -> v = l).
+    { intros v Hv. apply scan_ints_ok in Hv. congruence. }
+    apply scan_ints_ok in Es.
+    destruct (length l =? 0) eqn:E0; [apply Nat.eqb_eq in E0 | apply Nat.eqb_neq in E0].
+    + split.
+      * intros [H Hne]. inversion H; subst. congruence.
+      * intros [HF [Hb _]]. apply Huniq in HF. subst. lia.
+    + rewrite arity_ok. split.
+      * intros [[Hv [Hl He]] Hne]. subst. repeat split; try assumption; lia.
+      * intros [HF [Hb He]]. apply Huniq in HF. subst. repeat split; try lia; try assumption.
+        intros Hn. subst. simpl in E0. congruence.
+  - split; [intros [H _]; discriminate | intros [HF _]; apply scan_ints_ok in HF; congruence].
+  - split; [intros [H _]; discriminate | intros [HF _]; apply scan_ints_ok in HF; congruence].
+  - split; [intros [H _]; discriminate | intros [HF _]; apply scan_ints_ok in HF; congruence].
+  - split; [intros [H _]; discriminate | intros [HF _]; apply scan_ints_ok in HF; congruence].
+Qed.
+
+(* the "number is too large" rejection: some token is an integer literal outside [lo, hi] and every
+   token before it is a literal inside *)
+Theorem intlist_range_rejected : forall (lo hi : Z) (len : nat) (exact : bool) (text : string),
+  read_ints lo hi len exact text = IntRange <->
+  exists (pre : list string) (t : string) (post : list string) (z : Z),
+    split_ws text = (pre ++ t :: post)%list /\ (exists vs, Forall2 (int_tok lo hi) pre vs) /\
+    int_value t = Some z /\ ~ (lo <= z <= hi)%Z.
+Proof.
+  intros lo hi len exact text. unfold read_ints.
+  assert (G : forall ts, scan_ints lo hi ts = IntRange <->
+            exists pre t post z, ts = (pre ++ t :: post)%list /\ (exists vs, Forall2 (int_tok lo hi) pre vs) /\ int_value t = Some z /\ ~ (lo <= z <= hi)%Z).
+  { induction ts as [| t r IH]; simpl.
+    - split; [discriminate |]. intros [pre [t [post [z [H _]]]]]. destruct pre; discriminate.
+    - destruct (int_value t) as [z |] eqn:Ev.
+      + destruct ((lo <=? z) && (z <=? hi))%Z eqn:Er.
+        * apply andb_true_iff in Er. destruct Er as [E1 E2]. apply Z.leb_le in E1. apply Z.leb_le in E2.
+          split.
+          -- intros H. destruct (scan_ints lo hi r) eqn:Es; try discriminate.
+             destruct (proj1 IH eq_refl) as [pre [t' [post [z' [Hr [[vs Hvs] [Hv Hn]]]]]]].
+             exists (t :: pre), t', post, z'. subst r. repeat split; try assumption; try lia.
+             exists (z :: vs). constructor; [split; [exact Ev | lia] | exact Hvs].
+          -- intros [pre [t' [post [z' [Hts [[vs Hvs] [Hv Hn]]]]]]]. destruct pre as [| p pre].
+             ++ simpl in Hts. inversion Hts; subst. rewrite Ev in Hv. inversion Hv; subst. exfalso. apply Hn. lia.
+             ++ simpl in Hts. inversion Hts; subst. inversion Hvs; subst.
+                assert (Hx : scan_ints lo hi (pre ++ t' :: post)%list = IntRange).
+                { apply IH. exists pre, t', post, z'. repeat split; try assumption. eexists; eassumption. }
+                rewrite Hx. reflexivity.
+        * split; [intros _ | reflexivity].
+          exists [], t, r, z. repeat split; try assumption; try reflexivity.
+          -- exists []. constructor.
+          -- intros [H1 H2]. assert (((lo <=? z) && (z <=? hi))%Z = true) by (apply andb_true_iff; split; apply Z.leb_le; lia). congruence.
+      + split; [discriminate |]. intros [pre [t' [post [z' [Hts [[vs Hvs] [Hv Hn]]]]]]]. destruct pre as [| p pre].
+        * simpl in Hts. inversion Hts; subst. congruence.
+        * simpl in Hts. inversion Hts; subst. inversion Hvs as [| ? ? ? ? [Hp _] _]; subst. congruence. }
+  destruct (scan_ints lo hi (split_ws text)) as [l | | | |] eqn:Es.
+  - split.
+    + intros H. destruct (length l =? 0); [discriminate |]. destruct (exact && (length l <? len)); [discriminate |].
+      destruct (len <? length l); discriminate.
+    + intros H. apply G in H. congruence.
+  - split; [discriminate | intros H; apply G in H; congruence].
+  - split; [discriminate | intros H; apply G in H; congruence].
+  - split; [discriminate | intros H; apply G in H; congruence].
+  - split; [intros _; apply G; exact Es | reflexivity].
+Qed.
